@@ -240,22 +240,31 @@ impl CellSpec {
         self.env.iter().map(|e| CollisionBody { mesh: e.mesh.build(), pose: e.pose.iso32() }).collect()
     }
 
+    pub fn build_body(&self) -> RobotBody {
+        RobotBody {
+            joint_meshes: self.link_meshes(),
+            tool: self.tool.as_ref().map(|m| m.build()),
+            base: self.base.as_ref().map(|m| BaseBody {
+                mesh: m.build(),
+                base_pose: self.base_tf.unwrap_or(PoseSpec::identity()).iso32(),
+            }),
+            collision_environment: self.environment(),
+            safety: self.safety.build(),
+        }
+    }
+
+    /// The robot assembled from public fields around a `Probe` (the robot-model seam).
+    pub fn build_probed_robot(&self) -> KinematicsWithShape {
+        KinematicsWithShape {
+            kinematics: Arc::new(crate::probe::Probe { inner: self.reference_stack() }),
+            body: self.build_body(),
+        }
+    }
+
     /// Build the robot through the library API selected by `ctor`.
     pub fn build_robot(&self) -> KinematicsWithShape {
         match self.ctor {
-            Ctor::Direct => KinematicsWithShape {
-                kinematics: self.reference_stack(),
-                body: RobotBody {
-                    joint_meshes: self.link_meshes(),
-                    tool: self.tool.as_ref().map(|m| m.build()),
-                    base: self.base.as_ref().map(|m| BaseBody {
-                        mesh: m.build(),
-                        base_pose: self.base_tf.unwrap_or(PoseSpec::identity()).iso32(),
-                    }),
-                    collision_environment: self.environment(),
-                    safety: self.safety.build(),
-                },
-            },
+            Ctor::Direct => KinematicsWithShape { kinematics: self.reference_stack(), body: self.build_body() },
             Ctor::New(first) => KinematicsWithShape::new(
                 self.parameters(),
                 self.constraints().expect("constructor needs limits"),
